@@ -77,6 +77,8 @@ def rattrs(rng, p=0.2, base=None):
     if k > 0.35:
         for name in rng.sample(['refersTo', 'status', 'title', 'period'], rng.choice([1, 1, 2])):
             out[name] = {'refersTo': '#forms', 'status': 'editorial', 'title': rng.choice(['a b', 'T']), 'period': '#p1'}[name]
+        if len(out) >= 2 and rng.random() < 0.25:
+            out[list(out)[-1]] = ''   # a later attribute without a value
     return out
 
 
